@@ -28,7 +28,7 @@ static std::string lang_name(const Api& a, const polyseed_lang* l) { return l ? 
 struct Info { bool nonascii = false; int decodes = 0; };
 // executes the script of case c against one build; returns the transcript (one line per observation)
 static std::vector<std::string> transcript(const Api& a, const Case& c, Info* info) {
-    std::vector<std::string> T; deps::Kit& k = deps::kit(a.kit); k.reset_all(); k.kdf_mode = deps::KDF_MIX; k.kdf_key_salt = 77; k.lenient = c.u("lenient") != 0;
+    std::vector<std::string> T; deps::Kit& k = deps::kit(a.kit); k.reset_all(); k.kdf_mode = deps::KDF_MIX; k.kdf_key_salt = 77; k.lenient = c.u("lenient") != 0; k.norm_passthrough = c.u("passthrough") != 0;   /* a normaliser that copies: U+3000, NBSP, composed letters reach the library as typed */
     polyseed_dependency d = deps::make_set(a.kit); a.inject(&d); a.enable(7);
     std::string sec = c.bytes("secret"); sec.resize(19, '\0'); k.rand_bytes.assign(sec.begin(), sec.end()); k.clock = model::birthday_time((unsigned)c.u("birthday") & 1023u);
     polyseed_data* s = nullptr; int st = a.create((unsigned)c.u("ufeat") & 7u, &s); T.push_back(std::string("create ") + model::status_name(st)); if (st != 0) return T;
@@ -78,7 +78,7 @@ static std::string oracle(const Case& c) {
     size_t n = std::min(ts.size(), tu.size());
     for (size_t i = 0; i < n; i++) if (ts[i] != tu[i]) return "results differ between char signedness settings at step " + std::to_string(i) + ": -fsigned-char gives [" + ts[i].substr(0, 400) + "], -funsigned-char gives [" + tu[i].substr(0, 400) + "]";
     if (ts.size() != tu.size()) return "transcripts have different lengths";
-    ev.eval(); ev.count("lang:" + c.get("lang")); ev.count("decodes", (uint64_t)i1.decodes);
+    ev.eval(); ev.count("lang:" + c.get("lang")); if (c.u("passthrough")) ev.count("normaliser:copies-its-input"); ev.count("decodes", (uint64_t)i1.decodes);
     for (auto& l : ts) { if (l.rfind("decode[", 0) == 0) { size_t p = l.find("] "); std::string st = l.substr(p + 2, l.find(' ', p + 2) - p - 2); ev.count("decode-status:" + st); } }
     if (i1.nonascii) { ev.nt(c); ev.sample(c.get("lang"), c); } else ev.count("trivial(ascii-only)");
     return "";
@@ -90,7 +90,7 @@ static void run() {
     rc_run("c19-scripts", a.n(4000, 150000), 100, [&]() {
         Case c; c.set("secret", hex(*g::secret19())); c.set("birthday", (uint64_t)*g::birthday()); c.set("ufeat", *in_range<unsigned>(0, 8)); c.set("coin", (uint64_t)*g::coin());
         c.set("lang", *rc::gen::weightedOneOf<std::string>({{3, rc::gen::map(g::lang_index(), [&](int i) { return REG.at(i).name_en; })}, {3, rc::gen::element<std::string>("Spanish", "French", "Japanese", "Korean", "Chinese (Simplified)", "Chinese (Traditional)")}}));
-        c.set("lang2", REG.at(*g::lang_index()).name_en); c.set("mut", hex(*vf::bytes(8))); c.set("lenient", *in_range<unsigned>(0, 2));
+        c.set("lang2", REG.at(*g::lang_index()).name_en); c.set("mut", hex(*vf::bytes(8))); c.set("lenient", *in_range<unsigned>(0, 2)); c.set("passthrough", *rc::gen::weightedElement<unsigned>({{4, 0u}, {1, 1u}}));
         c.set("pw", hex(*rc::gen::element<std::string>("contrase\xc3\xb1""a", "contrasen\xcc\x83""a", "\xe3\x83\x91\xe3\x82\xb9\xe3\x83\xaf\xe3\x83\xbc\xe3\x83\x89", "\xeb\xb9\x84\xeb\xb0\x80\xeb\xb2\x88\xed\x98\xb8", "mot de passe \xc3\xa9t\xc3\xa9", "plain ascii", "\xef\xac\x81\xef\xbc\xa1", "", "\xef\xbb\xbfpassword", "pass\xc2\xadword\xe2\x80\x8b", "\xc2\xb2\xc2\xbd")));
         auto raw = *rc::gen::container<std::vector<uint8_t>>(rc::gen::weightedOneOf<uint8_t>({{3, rc::gen::inRange<uint8_t>(0x20, 0x7F)}, {2, rc::gen::inRange<uint8_t>(0x80, 0xFF)}, {1, rc::gen::just<uint8_t>(0x20)}})); c.set("raw", hex(raw));
         set_current(c); std::string m = oracle(c); if (!m.empty()) VF_FAIL(c, m);
